@@ -21,7 +21,7 @@ import (
 // the token alphabet of part (a)
 // (the first seven are the family of DESIGN.md; `"x=y"` — a quoted positional
 // value containing '=' — was added because the statement names such values)
-var tokens = []string{`w`, `"a b"`, `"q\"q"`, `K=v`, `K="a b"`, `K="x=y"`, `""`, `"x=y"`}
+var tokens = []string{`w`, `"a b"`, `"q\"q"`, `K=v`, `K="a b"`, `K="x=y"`, `""`, `"x=y"`, `"a b=c d"`}
 
 const (
 	modeDefault = "default" // the string is the `params:` value of the DAG file, nothing is given at start
